@@ -19,6 +19,8 @@ Adapter (this file) drives the real code through its public API:
              (table `tab`); `H`/`S` compare values.
   fn …       every translated functor against the Python functor on random parameters (fake Cn with closed-form integrals)
   mix …      IdealTPMixtureModel / IdealTMixtureModel / IdealEntropyModel through `IdealMixture` and real streams
+  mixupd …   the same mixture object evaluated at one (phase, T, P), before and after a member chemical's data is updated
+             in place through the public API (Hfus / Sfus / S0 setters, Cn.<phase>.add_method): it must follow the current pure values
 Oracle (real objects only): reference values, finite-difference derivatives, pressure term, jumps at Tb and Tm,
 mixture linearity/extensivity, the ideal mixing term and "mixing never lowers S" on real streams.
 """
@@ -33,7 +35,8 @@ RULE = ('three case families. chem: a real Chemical (bundled × reference phase 
         'by the setters; phase-locked; blank chemicals with random Tm, Tb, Hfus, Sfus|None, Hvap, S0 and polynomial Cn) — '
         'its wiring (functor class + every stored constant of H.s/l/g, S.s/l/g) and H/S values at random (phase, T, P) are '
         'compared with the model; fn: each of the 21 translated functors on random parameters; mix: mixture H/S/Cn on '
-        'random compositions (zeros included) of 2–6 chemicals, single- and multi-phase. non-trivial = at least one compared '
+        'random compositions (zeros included) of 2–6 chemicals, single- and multi-phase; mixupd: the same mixture re-evaluated at the '
+        'same (phase, T, P) after an in-place update of one member chemical (Hfus/Sfus/S0 setter, Cn.add_method). non-trivial = at least one compared '
         'value or wiring line and one oracle evaluation; distinct = distinct op lists')
 ASSUMPTIONS = [
     'HeatCap laws on the real Cn objects (additivity of both integrals; d/dT I = Cn, d/dT J = Cn/T) are hypotheses of the '
@@ -593,6 +596,81 @@ def run_mix(t, emit, failures, tags, idx):
     return count
 
 
+def run_mixupd(t, emit, failures, tags, idx):
+    """mixupd <ID,ID,..> <phase> <T> <P> <n,n,..> <kind> <member> <amount> <k>
+    Evaluate the mixture at (phase, T, P); update ONE member chemical's data IN PLACE through the public API
+    (kind: Hfus | Sfus | S0 setters, which patch the functor constants, or Cn = `Cn.<phase>.add_method(amount)`);
+    evaluate again at EXACTLY the same (phase, T, P) on the same mixture object and compare with the mole-weighted
+    sum of the CURRENT pure values.  Fresh chemicals and a fresh mixture per case (they are mutated)."""
+    import numpy as np
+    ids = t[1].split(',')
+    ph, T, P = t[2], float(t[3]), float(t[4])
+    n = [float(x) for x in t[5].split(',')]
+    kind, j, amount, k = t[6], int(t[7]) % len(ids), float(t[8]), float(t[9])
+    chems = [tmo.Chemical(ID, cache=False) for ID in ids]
+    chemicals = tmo.Chemicals(chems)
+    thermo = tmo.Thermo(chemicals, cache=False)
+    mix = thermo.mixture
+    chems = list(chemicals)
+    target = chems[j]
+    count = 0
+
+    def pure(kd):
+        return [float(pure_value(c, kd, ph, T, P)) for c in chems]
+    call = {'H': lambda mol: float(mix.H(ph, np.array(mol), T, P)), 'S': lambda mol: float(mix.S(ph, np.array(mol), T, P)),
+            'Cn': lambda mol: float(mix.Cn(ph, np.array(mol), T))}
+
+    def evaluate(stage, mol):
+        nonlocal count
+        for kd in ('H', 'S', 'Cn'):
+            try:
+                vals = pure(kd)
+                v = call[kd](mol)
+            except Exception as e:
+                tags.append(f'mixupd-skip:{kd}:{type(e).__name__}'); continue
+            emit(('mixS' if kd == 'S' else 'mix') + f' {csv(mol)} {csv(vals)}', fbits(v))
+            count += 1
+            if kd == 'S': continue                       # the mixing term of S is the known finding; H and Cn are linear
+            lin = math.fsum(a * b for a, b in zip(mol, vals))
+            scale = math.fsum(abs(a * b) for a, b in zip(mol, vals)) + 1e-12
+            if not abs(v - lin) <= 1e-9 * scale:
+                sig = f'mixture-{kd}:not-mole-weighted-sum' if stage == 'before' else f'mixture-{kd}:stale-after-data-update'
+                failures.append({'signature': sig, 'op_index': idx(),
+                                 'what': f'mixture of {t[1]} phase {ph!r} T={T} P={P} mol={mol}, {stage} `{target.ID}.{kind}` '
+                                         f'update: mixture.{kd} = {v!r} but sum n_i {kd}_i(phase,T,P) of the current pure '
+                                         f'values = {lin!r}'})
+    evaluate('before', n)
+    before = {kd: _try(lambda kd=kd: pure(kd)) for kd in ('H', 'S', 'Cn')}
+    if kind == 'Hfus': target.Hfus = (target.Hfus or 0.0) + amount
+    elif kind == 'Sfus': target.Sfus = (target.Sfus or 0.0) + amount / 100.0
+    elif kind == 'S0': target.S0 = (target.S0 or 0.0) + amount / 100.0
+    elif kind == 'Cn': getattr(target.Cn, ph).add_method(20.0 + abs(amount) / 100.0)
+    else: raise ValueError('unknown update ' + kind)
+    after = {kd: _try(lambda kd=kd: pure(kd)) for kd in ('H', 'S', 'Cn')}
+    if any(before[kd] != after[kd] for kd in before): tags.append('mixupd:pure-values-changed:' + kind)
+    else: tags.append('mixupd:no-effect:' + kind)
+    evaluate('after', n)                      # same composition, same (phase, T, P)
+    evaluate('after', [k * a for a in n])     # other composition, same (phase, T, P)
+    # a brand-new stream on the same thermo object sees the current data
+    try:
+        s = tmo.Stream(None, T=T, P=P, phase=ph, thermo=thermo); s.imol.data[:] = n
+        lin = math.fsum(a * b for a, b in zip(n, pure('H')))
+        scale = math.fsum(abs(a * b) for a, b in zip(n, pure('H'))) + 1e-12
+        count += 1
+        if not abs(s.H - lin) <= 1e-9 * scale:
+            failures.append({'signature': 'mixture-H:stale-after-data-update', 'op_index': idx(),
+                             'what': f'new Stream of {t[1]} phase {ph!r} T={T} P={P} mol={n} after `{target.ID}.{kind}` update: '
+                                     f'Stream.H = {s.H!r} but sum n_i H_i of the current pure values = {lin!r}'})
+    except Exception as e:
+        tags.append('mixupd-skip:stream:' + type(e).__name__)
+    return count
+
+
+def _try(f):
+    try: return f()
+    except Exception: return None
+
+
 def mixing_sign_explains(n, m, dS):
     """is the entropy drop what `+Σ n ln x` (the known defect) predicts?"""
     def term(v):
@@ -669,6 +747,8 @@ def run_ops(ops):
             run_meta(emit)
         elif op == 'mix':
             oracle_evals += run_mix(t, emit, failures, tags, idx)
+        elif op == 'mixupd':
+            oracle_evals += run_mixupd(t, emit, failures, tags, idx)
         else:
             raise ValueError('unknown op ' + line)
     return model_in, outs, failures, tags, oracle_evals
@@ -923,6 +1003,20 @@ def gen_mix_case(rng):
     return Case([f'mix {",".join(ids)} {ph} {T} {P} {",".join(map(repr, n))} {",".join(map(repr, m))} {kk}'], {})
 
 
+def gen_mixupd_case(rng):
+    ids = rng.sample(MIX_IDS, rng.randrange(2, 5))
+    kind = rng.choice(['Hfus', 'Hfus', 'Cn', 'Cn', 'S0', 'Sfus'])
+    ph = 's' if kind in ('Hfus', 'Sfus') and rng.random() < 0.8 else rng.choice('slg')
+    T = round(rng.uniform(240, 460), 1)
+    P = rnd_P(rng)
+    n = [rng.choice([0.0, 1.0, 2.0, 0.5, 3.25, round(rng.uniform(0, 50), 3)]) for _ in ids]
+    j = rng.randrange(len(ids))
+    if not n[j]: n[j] = 1.5                        # the updated chemical is present
+    amount = rng.choice([500.0, -250.0, round(rng.uniform(100, 5000), 1)])
+    k = rng.choice([2.0, 0.5, 3.5])
+    return Case([f'mixupd {",".join(ids)} {ph} {T} {P} {",".join(map(repr, n))} {kind} {j} {amount} {k}'], {})
+
+
 def generate(rng, tier, index, nworkers):
     n = max(1, budget(tier)['cases'] // nworkers)
     # grid first: every functor once, every bundled chemical × reference phase spread over the workers
@@ -946,7 +1040,8 @@ def generate(rng, tier, index, nworkers):
             tb = rng.choice(['none', '0.0', '298.15', repr(round(rng.uniform(100, 500), 2))])
             yield Case([f'phaseref blank {tm} {tb}'], {})
         elif r < 0.55: yield gen_chem_case(rng)
-        elif r < 0.75: yield gen_fn_case(rng)
+        elif r < 0.73: yield gen_fn_case(rng)
+        elif r < 0.80: yield gen_mixupd_case(rng)
         else: yield gen_mix_case(rng)
 
 
@@ -966,6 +1061,9 @@ def corpus():
               'H s 300.0 101325.0', 'S s 300.0 200000.0', 'S l 300.0 200000.0', 'S g 300.0 200000.0', 'o:ref', 'o:jumpTb', 'o:jumpTm']),
         Case(['phaseref db Water', 'phaseref db CO2', 'phaseref blank 298.15 400.0', 'phaseref blank 200.0 298.15',
               'phaseref blank none none', 'phaseref blank 400.0 none', 'phaseref blank 0.0 250.0']),
+        # in-place data updates between two evaluations at the same (phase, T, P) (seeded change C07-2)
+        Case(['mixupd Water,Ethanol s 250.0 101325.0 2.0,3.0 Hfus 0 500.0 2.0']),
+        Case(['mixupd Water,Ethanol l 320.0 101325.0 2.0,3.0 Cn 1 13000.0 3.5']),
         # the doctest composition of IdealEntropyModel
         Case(['mix Water,Ethanol l 350.0 101325.0 0.0,1.0 1.0,0.0 2.0']),
     ]
